@@ -173,7 +173,9 @@ func c03(c *Ctx) {
 		c.R.Harness(err.Error())
 		return
 	}
-	bases := []int{0, 1 + int(c.Seed)%4}
+	// all base_path classes in both tiers (cheap); thorough adds the full verb x shape matrix and a
+	// second absent-base file whose go package name equals the proto package tail
+	bases := []int{0, 1, 2, 3, 4}
 	if c.Thorough() {
 		bases = []int{0, 1, 2, 3, 4, 0}
 	}
